@@ -257,6 +257,7 @@ class Capture:
         self.program = None
         self.conn = None
         self.preserved = None
+        self.replaced = {}
 
 
 @contextlib.contextmanager
@@ -316,6 +317,21 @@ def capturing(cap: Capture, forced_layout: str | None = None):
             cap.program = r
         return r
 
+    from dsl_compiler.src.ir import optimizer as _opt
+    o_cse, o_cp = _opt.CSEOptimizer.optimize, _opt.ConstantPropagationOptimizer.optimize
+
+    def cse(self, ops):
+        r = o_cse(self, ops)
+        cap.replaced.update({str(k): str(v) for k, v in self.replacements.items()})
+        return r
+
+    def cprop(self, ops):
+        r = o_cp(self, ops)
+        cap.replaced.update({str(k): str(v) for k, v in self.replacements.items()})
+        return r
+
+    _opt.CSEOptimizer.optimize = cse
+    _opt.ConstantPropagationOptimizer.optimize = cprop
     ASTLowerer.lower_program = lower
     LayoutPlanner.plan_layout = plan
     BlueprintEmitter.emit_from_plan = emit
@@ -330,6 +346,8 @@ def capturing(cap: Capture, forced_layout: str | None = None):
         DSLParser.parse = o_parse
         ConnectionPlanner.plan_connections = o_conn
         _ils.IntegerLayoutEngine._solve_with_strategy = o_solve
+        _opt.CSEOptimizer.optimize = o_cse
+        _opt.ConstantPropagationOptimizer.optimize = o_cp
 
 
 ERR_CLASSES = [
@@ -397,6 +415,8 @@ def compile_capture(source: str, optimize: bool = True, power_poles: str | None 
         rec["ir_final"] = cap.ir_final
         rec["placed"] = [op.get("entity_id") for op in cap.ir_final if op.get("kind") == "IRPlaceEntity"]
         rec["wild_sources"] = wild_sources(cap.ir_final)
+    # nodes merged or folded away by the optimisers: old id -> the node that now stands for it
+    rec["replaced"] = dict(cap.replaced)
     if cap.lowerer is not None:
         low = cap.lowerer
         rec["names"] = {k: ref_json(v) for k, v in low.signal_refs.items()}
